@@ -518,3 +518,326 @@ Proof.
   destruct (Z.of_N cmdN =? 116); xstep; [cbn [orb] in Hgo; apply Hgo; reflexivity|].
   rewrite chk_I32 by lia. xstep. cbn [orb] in Hgo. apply Hgo. reflexivity.
 Qed.
+
+(* ------------------------------------------------------------------ lbuf_pair *)
+Definition pairs_b : bytes := [40; 41; 91; 93; 123; 125]%N.          (* "()[]{}" *)
+Definition G_pairs : nat := G_lit_28295b5d7b7d_6.
+Lemma index_of_find (c : N) : forall l i, index_of c l i = option_map (fun k => (i + k)%nat) (find_byte c l).
+Proof.
+  induction l as [|x l IH]; intro i; [reflexivity|]. cbn [index_of find_byte]. rewrite (N.eqb_sym c x).
+  destruct (x =? c)%N; [cbn; f_equal; lia|]. rewrite IH. destruct (find_byte c l); cbn; [f_equal; lia|reflexivity].
+Qed.
+Lemma pairs_small j : (nthb pairs_b j < 128)%N.
+Proof. do 7 (destruct j as [|j]; [reflexivity|]). reflexivity. Qed.
+Lemma sx_small : forall c, (c < 256)%N -> (if (c <? 128)%N then wrap I32 (wrap I8 (Z.of_N c)) else Z.of_N c) = Z.of_N c.
+Proof. byte_fact. Qed.
+Lemma pidx_land p : (p < 6)%nat -> Z.land (Z.of_nat p) 1 = if Nat.odd p then 1 else 0.
+Proof. intro H. do 6 (destruct p as [|p]; [reflexivity|]). lia. Qed.
+Lemma pidx_lxor p : (p < 6)%nat -> Z.lxor (Z.of_nat p) 1 = Z.of_nat (if Nat.odd p then p - 1 else p + 1).
+Proof. intro H. do 6 (destruct p as [|p]; [reflexivity|]). lia. Qed.
+
+Lemma upd_app_at {A} (m x : list A) i y : upd (m ++ x) (length m + i) y = m ++ upd x i y.
+Proof. induction m as [|a m IH]; [reflexivity|]. cbn [length Nat.add app]. change (upd (a :: m ++ x) (S (length m + i)) y) with (a :: upd (m ++ x) (length m + i) y). rewrite IH. reflexivity. Qed.
+Lemma upd_app_old_l {A} (m x : list A) b y : (b < length m)%nat -> upd (m ++ x) b y = upd m b y ++ x.
+Proof.
+  intro H. unfold upd. rewrite firstn_app, skipn_app. replace (b - length m)%nat with 0%nat by lia.
+  replace (S b - length m)%nat with 0%nat by lia. cbn [firstn skipn]. rewrite app_nil_r, <- app_assoc. reflexivity.
+Qed.
+Lemma store_any M bo w : (exists x, cell_at M bo x) -> store M bo 0 (VInt w) = Ok (upd M bo [VInt w]).
+Proof. intros [x Hx]. apply (store_cell M bo x w Hx). Qed.
+Lemma b0_lchr_range b r o : b0 (lchr b r o) <> 0%N -> exists l, getl b r = Some l /\ 0 <= o < slen l.
+Proof.
+  unfold lchr. destruct (getl b r) as [l|]; [|intro H; exfalso; apply H; reflexivity]. intro H. exists l. split; [reflexivity|].
+  unfold chr_at in H. destruct (Z.ltb_spec o 0); [exfalso; apply H; reflexivity|]. split; [lia|]. unfold slen.
+  destruct (Z_lt_ge_dec o (Z.of_nat (length l))); [assumption|]. exfalso. apply H. rewrite nth_overflow by lia. reflexivity.
+Qed.
+
+Definition lp_scan : stmt := match fn_body cf_lbuf_pair with SSeq _ (SSeq _ (SSeq _ (SSeq w _))) => w | _ => SSkip end.
+Definition lp_after : stmt := match fn_body cf_lbuf_pair with SSeq _ (SSeq _ (SSeq _ (SSeq _ r))) => r | _ => SSkip end.
+Definition lp_loop : stmt := match lp_after with SSeq _ (SSeq _ (SSeq w _)) => w | _ => SSkip end.
+Definition lp_ret : stmt := match lp_after with SSeq _ (SSeq _ (SSeq _ r)) => r | _ => SSkip end.
+Definition lp_test : stmt := match lp_loop with SWhile _ (SSeq _ (SSeq _ (SSeq _ t))) => t | _ => SSkip end.
+
+Section Pair.
+  Variables (F d : nat) (m : mem) (lb bln : nat) (lbs : list nat) (lines : list bytes) (br bo : nat).
+  Let b := map chop lines.
+  Let Rb := length m.
+  Let Ob := S (length m).
+  Hypothesis R : lbuf_at m lb bln lbs lines.
+  Hypothesis Hlit0 : str_at m G_lit__0 [].
+  Hypothesis Hpairs : str_at m G_pairs pairs_b.
+  Hypothesis Hsm : lines_small lines.
+  Hypothesis HF : (maxlen lines < F)%nat.
+  (* the caller's memory and, behind it, the cells of the address-taken locals r and o *)
+  Definition pm (r o : Z) : mem := m ++ [[VInt r]; [VInt o]].
+
+  Lemma pm_cells r o : cell_at (pm r o) Rb r /\ cell_at (pm r o) Ob o.
+  Proof.
+    unfold cell_at, pm, Rb, Ob. split.
+    - rewrite nth_error_app2 by lia. rewrite Nat.sub_diag. reflexivity.
+    - rewrite nth_error_app2 by lia. replace (S (length m) - length m)%nat with 1%nat by lia. reflexivity.
+  Qed.
+  Lemma pm_set_pos r o r' o' : set_pos (pm r o) Rb Ob r' o' = pm r' o'.
+  Proof.
+    unfold set_pos, pm, Rb, Ob. replace (length m) with (length m + 0)%nat at 1 by lia. rewrite upd_app_at.
+    replace (S (length m)) with (length m + 1)%nat by lia. rewrite upd_app_at. reflexivity.
+  Qed.
+  Lemma pm_mot r o : mot_mem (pm r o) lb bln lbs lines Rb Ob.
+  Proof.
+    assert (Hin : forall k, In k (G_lit__0 :: lb :: bln :: lbs) -> (k < length m)%nat).
+    { intros k [<-|Hk]; [apply nth_error_Some; unfold str_at in Hlit0; congruence|apply (lbuf_at_lt _ _ _ _ _ _ R Hk)]. }
+    constructor.
+    - apply lbuf_at_app. exact R.
+    - apply str_at_app. exact Hlit0.
+    - unfold Rb, Ob. lia.
+    - intro H. specialize (Hin _ H). unfold Rb in Hin. lia.
+    - intro H. specialize (Hin _ H). unfold Ob in Hin. lia.
+    - unfold pm, Rb. rewrite app_length. cbn [length]. lia.
+    - unfold pm, Ob. rewrite app_length. cbn [length]. lia.
+  Qed.
+  (* (unsigned char) lbuf_chr(lb, r, o)[0] *)
+  Lemma first_byte M r o : lbuf_at M lb bln lbs lines -> str_at M G_lit__0 [] ->
+    exists cb q, chr_ptr lbs lines r o = VPtr cb (Z.of_nat q) /\
+                 load M cb (Z.of_nat q + 1 * 0) = Ok (VInt (Z.of_N (b0 (lchr b r o)))) /\ (b0 (lchr b r o) < 256)%N.
+  Proof.
+    intros RM HM. destruct (chr_ptr_view M lb bln lbs lines r o RM HM) as (cb & cs & q & E & Hs & Hnn & Hq & Hv & _).
+    exists cb, q. split; [exact E|]. fold b in Hv. rewrite <- Hv. unfold b0. rewrite hd0_hd_chr, hd0_skipn'.
+    split; [|apply nthb_lt256; apply nonul_lt256; exact Hnn].
+    apply (load_str M cb cs _ q Hs); lia.
+  Qed.
+
+  Variables (r0 o0 : Z).
+  Hypothesis Hr : cell_at m br r0.
+  Hypothesis Ho : cell_at m bo o0.
+  Definition lp_loc (v6 v7 v8 v9 : val) : list val :=
+    [VPtr lb 0; VPtr br 0; VPtr bo 0; VPtr Rb 0; VPtr Ob 0; VPtr G_pairs 0; v6; v7; v8; v9].
+  Definition rowlen (r : Z) : Z := match getl b r with Some l => slen l | None => 0 end.
+
+  Lemma lp_scan_ok v7 v8 v9 r : i32 r -> forall k o mf fuel v6, (Z.to_nat (rowlen r - o) <= k)%nat -> (k < mf)%nat -> (k < fuel)%nat -> i32 o ->
+    exists o' pc,
+      exec (callf cprog F (S (S (S (S d))))) fuel lp_scan (mkst (lp_loc v6 v7 v8 v9) (pm r o))
+      = ONormal (mkst (lp_loc (VInt (Z.of_N pc)) v7 v8 v9) (pm r o')) /\
+      pair_scan mf b r o = (if (pc =? 0)%N then None else Some (o', pc)) /\ i32 o' /\
+      (pc <> 0%N -> index_of pc pairs 0 <> None /\ o <= o' < rowlen r).
+  Proof.
+    intro Ir. induction k as [|k IH]; intros o mf fuel v6 Hk Hmf Hf Io;
+      (destruct fuel as [|fuel]; [lia|]); (destruct mf as [|mf]; [lia|]);
+      unfold lp_scan, lp_loc; cbn [fn_body cf_lbuf_pair]; rewrite exec_while; xstep;
+      destruct (pm_cells r o) as [Cr Co]; pose proof (pm_mot r o) as [RM HM _ _ _ _ _];
+      rewrite (load_cell _ _ _ Cr); xstep; rewrite wrap_I32_id by exact Ir;
+      rewrite (load_cell _ _ _ Co); xstep; rewrite wrap_I32_id by exact Io;
+      rewrite (tr_lbuf_chr _ _ _ _ _ r o d F RM Hsm HF); xstep;
+      destruct (first_byte (pm r o) r o RM HM) as (cb & q & -> & Hld & Hc); xstep; rewrite Hld; xstep;
+      rewrite (wrap_byte_chain _ Hc); cbn [pair_scan]; cbv zeta; fold b;
+      set (c := b0 (lchr b r o)) in *;
+      (destruct (N.eqb_spec c 0) as [Ec|Ec];
+       [rewrite Ec; xstep; exists o, 0%N; split; [reflexivity|]; split; [reflexivity|]; split; [exact Io|]; intro X; congruence|]);
+      (replace (Z.of_N c =? 0) with false by (symmetry; apply Z.eqb_neq; lia)); cbn [negb]; xstep;
+      change (VPtr G_pairs 0) with (VPtr G_pairs (Z.of_nat 0));
+      rewrite (builtin_strchr (pm r o) G_pairs pairs_b 0 c (str_at_app _ _ _ _ Hpairs)
+                 ltac:(repeat constructor; cbv; intuition discriminate) ltac:(cbn; lia) Hc Ec);
+      xstep; cbn [skipn]; rewrite (index_of_find c pairs 0); change pairs with pairs_b;
+      destruct (b0_lchr_range b r o Ec) as (l & El & Hol); assert (Hrl : rowlen r = slen l) by (unfold rowlen; rewrite El; reflexivity);
+      (destruct (find_byte c pairs_b) as [j|] eqn:Ej; cbn [option_map]; xstep;
+       [exists o, c; destruct (N.eqb_spec c 0); [contradiction|]; split; [reflexivity|]; split; [reflexivity|]; split; [exact Io|];
+        intros _; split; [rewrite ?(index_of_find c pairs_b 0), ?Ej; cbn [option_map]; discriminate|lia]|]).
+    - exfalso. lia.
+    - rewrite (load_cell _ _ _ Co). xstep. rewrite wrap_I32_id by exact Io.
+      assert (Hl31 : slen l <= 2147483647).
+      { destruct (getl_some lines r l El) as (i & Ei & ->). apply slen_small; [exact Hsm|exact (la_nonul _ _ _ _ _ R)]. }
+      rewrite chk_I32 by lia. xstep. cbn [fst snd]. rewrite (store_cell _ _ _ _ Co). xstep.
+      replace (upd (pm r o) Ob [VInt (o + 1)]) with (pm r (o + 1))
+        by (rewrite <- (pm_set_pos r o r (o + 1)); unfold set_pos; rewrite (upd_self _ _ _ Cr); reflexivity).
+      destruct (IH (o + 1) mf fuel (VInt (Z.of_N c)) ltac:(lia) ltac:(lia) ltac:(lia) ltac:(unfold i32 in *; lia)) as (o' & pc & E1 & E2 & E3 & E4).
+      unfold lp_scan, lp_loc in E1; cbn [fn_body cf_lbuf_pair] in E1. exists o', pc. split; [exact E1|]. split; [exact E2|]. split; [exact E3|].
+      intro X. destruct (E4 X). split; [assumption|lia].
+  Qed.
+
+  Lemma pm_app_set r' o' r1 o1 : set_pos (pm r1 o1) br bo r' o' = set_pos m br bo r' o' ++ [[VInt r1]; [VInt o1]].
+  Proof.
+    pose proof (cell_lt _ _ _ Hr) as Lr. pose proof (cell_lt _ _ _ Ho) as Lo.
+    unfold set_pos, pm. rewrite (upd_app_old_l m _ br) by exact Lr. apply upd_app_old_l. rewrite upd_length by exact Lr. exact Lo.
+  Qed.
+
+  (* the nesting loop: pidx = the index of the bracket under the cursor in "()[]{}" *)
+  Variable pidx : nat.
+  Hypothesis Hpidx : (pidx < 6)%nat.
+  Let dirz : Z := if Nat.odd pidx then -1 else 1.
+  Let opn : N := nthb pairs_b pidx.
+  Let cls : N := nth (if Nat.odd pidx then pidx - 1 else pidx + 1)%nat pairs 0%N.
+
+  Lemma lp_loop_ok v6 fuel2 : (0 < fuel2)%nat -> forall mf r o dep fuel v9 res,
+    pair_loop mf b dirz opn cls dep r o = Some res -> pos_ok r o -> 1 <= dep -> dep + Z.of_nat mf <= 2147483647 -> (mf < fuel)%nat ->
+    exists st' r1 o1,
+      match exec (callf cprog F (S (S (S (S d))))) fuel lp_loop (mkst (lp_loc v6 (VInt (Z.of_nat pidx)) (VInt dep) v9) (pm r o)) with
+      | ONormal st1 => exec (callf cprog F (S (S (S (S d))))) fuel2 lp_ret st1
+      | o => o
+      end = OReturn (VInt (match res with Some _ => 0 | None => 1 end)) st' /\
+      memm st' = match res with
+                 | Some (r', o') => set_pos m br bo r' o' ++ [[VInt r1]; [VInt o1]]
+                 | None => m ++ [[VInt r1]; [VInt o1]]
+                 end.
+  Proof.
+    intro Hf2. destruct fuel2 as [|fuel2']; [lia|].
+    assert (Hdir : dir_ok dirz) by (unfold dirz; destruct (Nat.odd pidx); [right|left]; reflexivity).
+    induction mf as [|mf IH]; intros r o dep fuel v9 res Hres Hp Hdep Hbound Hf; [discriminate|].
+    destruct fuel as [|fuel]; [lia|]. cbn [pair_loop] in Hres.
+    unfold lp_loop, lp_ret, lp_loc; cbn [lp_after fn_body cf_lbuf_pair]. rewrite exec_while.
+    (let t := eval cbv [lp_test lp_loop lp_after fn_body cf_lbuf_pair] in lp_test in change t with lp_test).
+    xstep. rewrite (pidx_land pidx Hpidx).
+    assert (Hcall : callf cprog F (S (S (S (S d)))) F_lbuf_next [VPtr lb 0; VInt dirz; VPtr Rb 0; VPtr Ob 0] (pm r o)
+                    = let '(s, r', o') := lbuf_next b dirz r o in Ok (st_val s, pm r' o')).
+    { destruct (pm_cells r o) as [Cr Co].
+      rewrite (next_call (pm r o) lb bln lbs lines Rb Ob r o dirz d F (pm_mot r o) Hsm HF Cr Co Hp Hdir). fold b.
+      destruct (lbuf_next b dirz r o) as [[s r'] o']. rewrite pm_set_pos. reflexivity. }
+    assert (Hcond : forall st, (if Nat.odd pidx then (do r <- chk I32 (- (1)); Ok (VInt r, st)) else Ok (VInt 1, st)) = Ok (VInt dirz, st : state)).
+    { intro st. unfold dirz. destruct (Nat.odd pidx); [rewrite chk_I32 by lia|]; reflexivity. }
+    destruct (Nat.odd pidx) eqn:Eodd; xstep; [rewrite chk_I32 by lia; xstep; change (- (1)) with dirz|change 1 with dirz at 1];
+      rewrite Hcall; (destruct (lbuf_next b dirz r o) as [[s r'] o'] eqn:En); xstep;
+      pose proof (lbuf_next_pos_ok lines dirz r o _ _ _ Hsm (la_nonul _ _ _ _ _ R) Hdir Hp En) as Hp1;
+      (destruct s; unfold st_val; xstep;
+       [injection Hres as <-; eexists _, r', o'; split; reflexivity|]).
+    all: destruct (pm_cells r' o') as [Cr Co]; pose proof (pm_mot r' o') as [RM HM _ _ _ _ _]; destruct Hp1 as [Pr1 Po1].
+    all: rewrite (load_cell _ _ _ Cr); xstep; rewrite wrap_I32_id by lia;
+         rewrite (load_cell _ _ _ Co); xstep; rewrite wrap_I32_id by lia;
+         rewrite (tr_lbuf_chr _ _ _ _ _ r' o' d F RM Hsm HF); xstep;
+         destruct (first_byte (pm r' o') r' o' RM HM) as (cb & q & -> & Hld & Hc); xstep; rewrite Hld; xstep;
+         rewrite (wrap_byte_chain _ Hc); fold b in Hres; set (c := b0 (lchr b r' o')) in *.
+    all: rewrite (pidx_lxor pidx Hpidx), Eodd.
+    all: match goal with |- context [load (pm ?rr ?oo) G_pairs (0 + 1 * Z.of_nat ?j)] =>
+           rewrite (load_str (pm rr oo) G_pairs pairs_b _ j (str_at_app _ _ _ _ Hpairs)) by (cbn [length pairs_b]; lia); xstep;
+           pose proof (sx_small (nthb pairs_b j) ltac:(pose proof (pairs_small j); lia)) as Hsx;
+           destruct (N.ltb_spec (nthb pairs_b j) 128) as [_|X]; [|pose proof (pairs_small j); lia]; rewrite Hsx; clear Hsx;
+           rewrite of_N_eqb; change (nthb pairs_b j) with cls
+         end.
+    all: set (dep1 := if (c =? cls)%N then dep - 1 else dep) in *.
+    all: assert (Hd1 : 0 <= dep1 <= dep) by (unfold dep1; destruct (c =? cls)%N; lia).
+    all: set (dep2 := if (c =? opn)%N then dep1 + 1 else dep1) in *.
+    all: assert (Hd2 : 0 <= dep2 <= dep + 1) by (unfold dep2; destruct (c =? opn)%N; lia).
+    (* the two conditional updates of dep and the test, once for both directions *)
+    all: assert (Hfin : forall v9',
+      exists st' r1 o1,
+        match
+          match exec (callf cprog F (S (S (S (S d))))) (S fuel) lp_test
+                  (mkst (lp_loc v6 (VInt (Z.of_nat pidx)) (VInt dep2) v9') (pm r' o')) with
+          | ONormal st2 | OContinue st2 => exec (callf cprog F (S (S (S (S d))))) fuel lp_loop st2
+          | OBreak st2 => ONormal st2
+          | o => o
+          end
+        with
+        | ONormal st1 => exec (callf cprog F (S (S (S (S d))))) (S fuel2') lp_ret st1
+        | o => o
+        end = OReturn (VInt (match res with Some _ => 0 | None => 1 end)) st' /\
+        memm st' = match res with
+                   | Some (r'', o'') => set_pos m br bo r'' o'' ++ [[VInt r1]; [VInt o1]]
+                   | None => m ++ [[VInt r1]; [VInt o1]]
+                   end).
+    1,3: (intro v9'; unfold lp_test, lp_loc; cbn [lp_loop lp_after fn_body cf_lbuf_pair]; xstep;
+      destruct (Z.eqb_spec dep2 0) as [E0|E0]; fold dep1 dep2 in Hres;
+      [ replace (dep2 =? 0) with true in Hres by (symmetry; apply Z.eqb_eq; exact E0); injection Hres as <-;
+        cbn [negb b2z]; xstep;
+        rewrite (load_cell _ _ _ Cr); xstep; rewrite !(wrap_I32_id r') by lia;
+        rewrite (store_cell (pm r' o') br r0 r' (cell_at_app _ _ _ _ Hr : cell_at (pm r' o') br r0)); xstep;
+        rewrite load_upd_other_block by (try (unfold pm; rewrite app_length; cbn [length]); pose proof (cell_lt _ _ _ Hr); unfold Ob; lia);
+        rewrite (load_cell _ _ _ Co); xstep; rewrite !(wrap_I32_id o') by lia;
+        assert (E : store (upd (pm r' o') br [VInt r']) bo 0 (VInt o') = Ok (upd (upd (pm r' o') br [VInt r']) bo [VInt o']))
+          by (apply store_any; destruct (Nat.eq_dec bo br) as [->|Nb];
+              [exists r'; apply cell_at_upd_same; unfold pm; rewrite app_length; pose proof (cell_lt _ _ _ Hr); lia
+              |exists o0; apply cell_at_upd_other; [unfold pm; rewrite app_length; pose proof (cell_lt _ _ _ Hr); lia|exact Nb|apply cell_at_app; exact Ho]]);
+        rewrite E; xstep; eexists _, r', o'; split; [reflexivity|]; cbn [memm]; rewrite <- pm_app_set; reflexivity
+      | replace (dep2 =? 0) with false in Hres by (symmetry; apply Z.eqb_neq; exact E0);
+        cbn [negb b2z]; xstep;
+        destruct (IH r' o' dep2 fuel v9' res Hres (conj Pr1 Po1) ltac:(lia) ltac:(lia) ltac:(lia)) as (st' & r1 & o1 & E1 & E2);
+        exists st', r1, o1; split; [|exact E2]; unfold lp_loop, lp_ret, lp_loc in E1; cbn [lp_after fn_body cf_lbuf_pair] in E1; exact E1 ]).
+    all: destruct (c =? cls)%N eqn:Ecl; xstep; [rewrite chk_I32 by lia; xstep|].
+    all: match goal with |- context [load (pm ?rr ?oo) G_pairs (0 + 1 * Z.of_nat pidx)] =>
+           rewrite (load_str (pm rr oo) G_pairs pairs_b _ pidx (str_at_app _ _ _ _ Hpairs)) by (cbn [length pairs_b]; lia); xstep;
+           pose proof (sx_small (nthb pairs_b pidx) ltac:(pose proof (pairs_small pidx); lia)) as Hsx;
+           (destruct (N.ltb_spec (nthb pairs_b pidx) 128) as [_|X]; [|pose proof (pairs_small pidx); lia]); rewrite Hsx; clear Hsx;
+           rewrite of_N_eqb; fold opn;
+           (destruct (c =? opn)%N eqn:Eop; xstep; [rewrite chk_I32 by (unfold dep1 in *; lia); xstep|])
+         end.
+    all: unfold dep2, dep1 in Hfin; rewrite ?Ecl, ?Eop in Hfin;
+         match goal with |- context [mkst (?a :: ?b' :: ?c' :: ?d' :: ?e :: ?f :: ?g :: ?h :: ?i :: [?v]) _] => apply (Hfin v) end.
+  Qed.
+End Pair.
+
+Lemma pidx_pairs c p : index_of c pairs 0 = Some p -> (p < 6)%nat /\ nthb pairs_b p = c.
+Proof.
+  rewrite index_of_find. change pairs with pairs_b. destruct (find_byte c pairs_b) as [k|] eqn:E; [|discriminate].
+  cbn [option_map Nat.add]. intro X. injection X as <-. destruct (find_byte_lt c pairs_b k E) as [H1 H2]. split; [exact H1|exact H2].
+Qed.
+
+(* lbuf_pair(lb, row, off): for every buffer in memory and every position inside int: returns 0 and stores the model's matching
+   position in *row, *off, or returns 1 and stores nothing; the two address-taken locals r and o stay behind as fresh blocks.
+   mf = the model's fuel; dep + mf inside int (the nesting depth is counted in an int) *)
+Theorem tr_lbuf_pair m lb bln lbs lines br bo r o mf res d fuel :
+  lbuf_at m lb bln lbs lines -> str_at m G_lit__0 [] -> str_at m G_pairs pairs_b -> lines_small lines ->
+  cell_at m br r -> cell_at m bo o -> pos_ok r o -> 0 <= o ->
+  lbuf_pair mf (map chop lines) r o = Some res -> Z.of_nat mf <= 2147483645 ->
+  (mf < fuel)%nat -> (S (maxlen lines) < fuel)%nat ->
+  exists r1 o1,
+  callf cprog fuel (S (S (S (S (S d))))) F_lbuf_pair [VPtr lb 0; VPtr br 0; VPtr bo 0] m
+  = match res with
+    | Some (r', o') => Ok (VInt 0, set_pos m br bo r' o' ++ [[VInt r1]; [VInt o1]])
+    | None => Ok (VInt 1, m ++ [[VInt r1]; [VInt o1]])
+    end.
+Proof.
+  intros R Hlit0 Hpairs Hsm Hr Ho [Pr Po] Ho0 Hres Hmf Hf HF. set (b := map chop lines) in *.
+  unfold lbuf_pair in Hres.
+  (* the scan for the first bracket at or behind the cursor *)
+  set (n := match getl b r with Some l => S (length l) | None => 1%nat end) in *.
+  assert (Hn : (Z.to_nat (rowlen lines r - o) < n)%nat /\ (n <= S (maxlen lines))%nat).
+  { unfold rowlen, n. fold b. destruct (getl b r) as [l|] eqn:El; [|cbn; lia].
+    destruct (getl_some lines r l El) as (i & Ei & ->). unfold slen. pose proof (chop_length_le _ (nthl_nonul lines i (la_nonul _ _ _ _ _ R))).
+    pose proof (maxlen_ge lines i). lia. }
+  destruct Hn as [Hn1 Hn2].
+  destruct (lp_scan_ok fuel d m lb bln lbs lines br bo R Hlit0 Hpairs Hsm ltac:(lia) (VUndef) (VInt 1) VUndef r ltac:(unfold i32; lia)
+              (Z.to_nat (rowlen lines r - o)) o n fuel VUndef ltac:(lia) Hn1 ltac:(lia) ltac:(unfold i32; lia))
+    as (o' & pc & Escan & Eps & Io' & Hpc).
+  fold b in Eps. rewrite Eps in Hres.
+  enter F_lbuf_pair cf_lbuf_pair.
+  (let t := eval cbv [lp_scan fn_body cf_lbuf_pair] in lp_scan in change t with lp_scan).
+  (let t := eval cbv [lp_after fn_body cf_lbuf_pair] in lp_after in change t with lp_after).
+  remember lp_scan as sc eqn:Esc. remember lp_after as af eqn:Eaf.
+  xstep. rewrite malloc_ok by lia. xstep. change (repeat VUndef (Z.to_nat 1)) with [VUndef].
+  rewrite (load_cell _ br r (cell_at_app _ _ _ _ Hr)). xstep. rewrite !(wrap_I32_id r) by lia.
+  rewrite (store_ok (m ++ [[VUndef]]) (length m) [VUndef] 0 _ (nth_error_app_new m [VUndef])) by (cbn; lia). xstep.
+  change (upd [VUndef] (Z.to_nat 0) (VInt r)) with [VInt r]. rewrite upd_app_new.
+  rewrite malloc_ok by lia. xstep. change (repeat VUndef (Z.to_nat 1)) with [VUndef].
+  rewrite app_length. cbn [length]. replace (length m + 1)%nat with (S (length m)) by lia.
+  rewrite (load_cell _ bo o (cell_at_app _ _ _ _ (cell_at_app _ _ _ _ Ho))). xstep. rewrite !(wrap_I32_id o) by lia.
+  assert (Hnew : nth_error ((m ++ [[VInt r]]) ++ [[VUndef]]) (S (length m)) = Some [VUndef]).
+  { replace (S (length m)) with (length (m ++ [[VInt r]])) by (rewrite app_length; cbn; lia). apply nth_error_app_new. }
+  rewrite (store_ok _ (S (length m)) [VUndef] 0 _ Hnew) by (cbn; lia). xstep.
+  change (upd [VUndef] (Z.to_nat 0) (VInt o)) with [VInt o].
+  replace (upd ((m ++ [[VInt r]]) ++ [[VUndef]]) (S (length m)) [VInt o]) with (pm m r o).
+  2:{ replace (S (length m)) with (length (m ++ [[VInt r]])) by (rewrite app_length; cbn; lia). rewrite upd_app_new, <- app_assoc. reflexivity. }
+  subst sc. unfold lp_loc in Escan. change (VPtr G_lit_28295b5d7b7d_6 0) with (VPtr G_pairs 0). rewrite Escan.
+  subst af. unfold lp_after; cbn [fn_body cf_lbuf_pair].
+  (let t := eval cbv [lp_loop lp_after fn_body cf_lbuf_pair] in lp_loop in change t with lp_loop).
+  (let t := eval cbv [lp_ret lp_after fn_body cf_lbuf_pair] in lp_ret in change t with lp_ret).
+  remember lp_loop as lo eqn:Elo. remember lp_ret as rt eqn:Ert. xstep.
+  destruct (N.eqb_spec pc 0) as [E0|E0].
+  { subst pc. cbn [Z.of_N Z.eqb negb b2z]. xstep. subst rt. unfold lp_ret; cbn [lp_after fn_body cf_lbuf_pair]. xstep.
+    injection Hres as <-. exists r, o'. reflexivity. }
+  replace (Z.of_N pc =? 0) with false by (symmetry; apply Z.eqb_neq; lia). cbn [negb b2z]. xstep.
+  destruct (Hpc E0) as [Hidx Hrange].
+  destruct (index_of pc pairs 0) as [pidx|] eqn:Eidx; [|congruence].
+  destruct (pidx_pairs pc pidx Eidx) as [Hp6 Hpn].
+  assert (Hc : (pc < 256)%N) by (rewrite <- Hpn; pose proof (pairs_small pidx); lia).
+  change (VPtr G_pairs 0) with (VPtr G_pairs (Z.of_nat 0)).
+  rewrite (builtin_strchr (pm m r o') G_pairs pairs_b 0 pc (str_at_app _ _ _ _ Hpairs)
+             ltac:(repeat constructor; cbv; intuition discriminate) ltac:(cbn; lia) Hc E0).
+  cbn [skipn]. rewrite index_of_find in Eidx. change pairs with pairs_b in Eidx.
+  destruct (find_byte pc pairs_b) as [k|]; [|discriminate]. cbn [option_map Nat.add] in Eidx. injection Eidx as ->. xstep.
+  rewrite Nat.eqb_refl. xstep. replace (Z.of_nat 0 + Z.of_nat pidx - Z.of_nat 0) with (Z.of_nat pidx) by lia. rewrite Z.quot_1_r.
+  rewrite wrap_I32_id by lia. change (Z.of_nat 0) with 0.
+  assert (Hrl : rowlen lines r <= 2147483647).
+  { unfold rowlen. fold b. destruct (getl b r) as [l|] eqn:El; [|lia]. destruct (getl_some lines r l El) as (i & Ei & ->).
+    apply slen_small; [exact Hsm|exact (la_nonul _ _ _ _ _ R)]. }
+  subst lo rt. rewrite <- Hpn in Hres.
+  destruct (lp_loop_ok fuel d m lb bln lbs lines br bo R Hlit0 Hpairs Hsm ltac:(lia) r o Hr Ho pidx Hp6 (VInt (Z.of_N pc)) fuel ltac:(lia)
+              mf r o' 1 fuel VUndef res Hres ltac:(split; lia) ltac:(lia) ltac:(lia) Hf) as (st' & r1 & o1 & E1 & E2).
+  exists r1, o1. unfold lp_loc in E1. rewrite E1, E2. destruct res as [[r' o'']|]; reflexivity.
+Qed.
